@@ -23,9 +23,15 @@ import (
 	"io"
 
 	"github.com/gokrazy/rsync/internal/maincmd"
+	"github.com/gokrazy/rsync/internal/rsyncopts"
 	"github.com/gokrazy/rsync/internal/rsyncos"
 	"github.com/gokrazy/rsync/internal/rsyncstats"
 )
+
+// ExitError is returned by [Cmd.Run] when the arguments only asked for
+// output such as --help or --version: the output was printed and the
+// program should exit with the contained code.
+type ExitError = rsyncopts.ExitError
 
 // Cmd represents an rsync invocation being prepared or run.
 type Cmd struct {
